@@ -365,7 +365,61 @@ def plain_script(n, shutdown=True):
 
 # ---- per-property generators ------------------------------------------------------
 
+MiB = 1024 * 1024
+
+
+def realscale(rng, types):
+    """The library's real constants: 5 MiB / 5 GiB / 10 000 part limits, 8 MiB
+    default threshold, 256 KiB progress / bandwidth / io thresholds."""
+    chunk = rng.choice([5 * MiB, 8 * MiB, 6 * MiB + 1])
+    cfg = dict(multipart_threshold=rng.choice([8 * MiB, 5 * MiB, 6 * MiB]),
+               multipart_chunksize=chunk,
+               max_request_concurrency=rng.choice([1, 2, 3]),
+               max_submission_concurrency=rng.choice([1, 2]),
+               max_request_queue_size=1000, max_submission_queue_size=1000,
+               max_io_queue_size=rng.choice([2, 1000]), io_chunksize=256 * 1024,
+               num_download_attempts=rng.choice([2, 5]),
+               max_in_memory_upload_chunks=rng.choice([1, 2, 10]),
+               max_in_memory_download_chunks=rng.choice([1, 2, 10]), max_bandwidth=None)
+    n = rng.choice([1, 1, 2])
+    transfers = []
+    T = cfg['multipart_threshold']
+    for _ in range(n):
+        size = rng.choice([300 * 1024, 600 * 1024 + 7, T - 1, T, T + 1, chunk * 2,
+                           chunk * 2 + 1, chunk + 5 * MiB - 1, 17 * MiB + 3])
+        t = gen_transfer(rng, cfg, types, 1, False, 40, provide_prob=0.3)
+        t['size'] = size
+        for sub in t['subs']:
+            if sub.get('provide_size') is not None:
+                sub['provide_size'] = size
+        if t.get('prev') is not None:
+            t['prev'] = rng.randint(0, 9)
+        t.pop('short_src', None)
+        transfers.append(t)
+    knobs = {'sock_chunk': rng.choice([8192, 65536, 1 << 20]), 'short_reads': rng.random() < 0.5,
+             'checksum_calc': rng.choice(['when_required', 'when_supported']),
+             'latency': 'none', 'epoch': 1.7e9, 'fs_buffer': 8192,
+             'min_part_size': 5 * MiB, 'real_scale': True,
+             'sign_read': rng.random() < 0.3, 'pre_read': rng.random() < 0.2,
+             'chunked': rng.random() < 0.3}
+    sc = {'config': cfg, 'knobs': knobs, 'transfers': transfers, 'faults': [],
+          'fs_seed': rng.randrange(1 << 30)}
+    sc['strategy'] = gen_strategy(rng, 3000)
+    sc['max_steps'] = 2000000
+    return sc
+
+
 def gen_C01(rng):
+    if rng.random() < 0.03:
+        sc = realscale(rng, [('upload', 5), ('copy', 2)])
+        for i, t in enumerate(sc['transfers']):
+            if t['type'] == 'upload' and rng.random() < 0.4:
+                sc['faults'].append({'site': 'rewind', 'op': 'put_object' if t['size'] <
+                                     sc['config']['multipart_threshold'] else 'upload_part',
+                                     'key': 'k%d' % i,
+                                     'part': None if t['size'] < sc['config']['multipart_threshold']
+                                     else 1, 'at': [rng.randint(0, 700 * 1024)]})
+        return sc
     sc = base(rng, [('upload', 5), ('copy', 2)], nmax=3, body_tricks=True)
     for i, t in enumerate(sc['transfers']):
         if rng.random() < 0.6:
@@ -374,6 +428,18 @@ def gen_C01(rng):
 
 
 def gen_C02(rng):
+    if rng.random() < 0.03:
+        sc = realscale(rng, [('download', 1)])
+        cfg = sc['config']
+        for i, t in enumerate(sc['transfers']):
+            if rng.random() < 0.5:
+                rngs = download_ranges(t['size'], cfg) if is_multipart(t, cfg) else [None]
+                r = rng.choice(rngs)
+                sc['faults'].append({'site': 'stream', 'key': 'o%d' % i, 'range': r,
+                                     'attempt': 0, 'exc': rng.choice(RETRYABLE),
+                                     'at': rng.randint(0, min(range_len(t['size'], cfg, r),
+                                                              900 * 1024))})
+        return sc
     sc = base(rng, [('download', 1)], nmax=3, short_reads=True)
     if rng.random() < 0.6:
         for i, t in enumerate(sc['transfers']):
